@@ -392,7 +392,7 @@ def oracle_ready_without_wake(rep, tier, seed, profiles=("mixed", "flow", "bp", 
     """plain driver scripts (named wakers of the deterministic driver): a parked poll that is later Ready was woken in between;
     the committed regression replays run first"""
     import glob
-    per = 40 if tier == "quick" else 1200
+    per = 40 if tier == "quick" else 600
     scs = []
     for path in sorted(glob.glob(os.path.join(common.VERIF, "corpus", "conn", "c06_*.json"))):
         rc, out = common.run_harness("conn", ["--replay", path], timeout=120)
